@@ -415,6 +415,34 @@ def check(run):
     run.sample(gen_meta[1] if len(gen_meta) > 1 else None)
     run.sample(asn_meta[len(asn_meta) // 2] if asn_meta else None)
 
+    # ---- histories: an object that has been encoded / read once is changed and encoded again ------------------------
+    for cname in names:
+        cls, is_msg = cx.cls[cname]
+        if not is_msg:
+            continue
+        asg1 = make_assignment(cx, cname, 1, "random")
+        asg2 = make_assignment(cx, cname, 1, "random")
+        merged = {"cls": cname, "attrs": dict(asg1["attrs"]), "extras": list(asg1["extras"]) + list(asg2["extras"])}
+        merged["attrs"].update(asg2["attrs"])
+        try:
+            o = py_object(cx, asg1)
+            _ = o.as_bytes()
+            _ = o.avps
+            for a, v in asg2["attrs"].items():            # ... then more attributes are set on the SAME object
+                tmp = py_object(cx, {"cls": cname, "attrs": {a: v}, "extras": []})
+                setattr(o, a, getattr(tmp, a))
+            for e in asg2["extras"]:
+                o.append_avp(e)
+            again = O.ref_parse_avps(o.as_bytes()[20:])
+            fresh = O.ref_parse_avps(py_object(cx, merged).as_bytes()[20:])
+        except Exception as e:   # noqa
+            continue            # values the class cannot encode are reported by the main loop
+        run.count(1, [("re-encode", cname, repr(sorted(merged["attrs"]))[:200])])
+        if again != fresh:
+            run.violation("encode-after-change", {"class": cname, "first": sorted(asg1["attrs"]), "then": sorted(asg2["attrs"])},
+                          len(again), len(fresh),
+                          what=f"{cname}: attributes set after the message had been encoded once are not reflected by the next encoding")
+
     # ---- commands without a typed implementation -----------------------------------------
     und_cases, und_meta = [], []
     n_und = 400 if thorough else 80
